@@ -1,0 +1,57 @@
+//go:build verif
+
+package builder
+
+// Contracts for the deductive verifier in /verif (govc).  This file contains comments only;
+// it is compiled only with -tags verif and declares nothing.
+
+// ---- accessibility (C05, C01) and conversions (C04, C16, C01, C07) ------------------------------------------------
+
+//@ spec wfB(b *assignmentBuilder) bool = b.fset != nil && b.pkg != nil && b.pkg.Types != nil && option.optsInv(b.opts)
+//@ spec externalPkg(b *assignmentBuilder, pkg *types.Package) bool = pkg != nil && b.pkg.PkgPath != pkgPath(pkg)
+//@ spec accessible(b *assignmentBuilder, t types.Type, name string) bool =
+//@     isStructT(derefT(t)) &&
+//@     (!is(derefT(t), *types.Named) || !externalPkg(b, pkgOfObj(namedObj(as(derefT(t), *types.Named)))) || isExported(name))
+//@
+//@ func (*assignmentBuilder).isExternalPkg(b, pkg) (r)
+//@   nilable pkg
+//@   requires b.pkg != nil
+//@   ensures {C05,C01,C06} r == externalPkg(b, pkg)
+//@ func (*assignmentBuilder).isStructFieldAccessible(b, structNode, leafName) (r)
+//@   requires b.pkg != nil && bmodel.wfNode(structNode)
+//@   ensures {C05,C01,C04} r == accessible(b, bmodel.exprType(structNode), leafName)
+//@
+//@ spec castable(t types.Type) bool = is(derefT(t), *types.Named) || is(derefT(t), *types.Basic)
+//@ spec castOf(b *assignmentBuilder, t types.Type, n bmodel.Node) bmodel.Node =
+//@     cond(assignable(bmodel.exprType(n), t), n,
+//@     cond(bmodel.returnsError(n), nil,
+//@     cond(b.opts.Stringer && assignable(stringTypeOf(), t) && compliesStringer(bmodel.exprType(n)), box(bmodel.StringerEntry{inner: n}),
+//@     cond(b.opts.Typecast && convertible(bmodel.exprType(n), t) && castable(t),
+//@          box(bmodel.TypecastEntry{inner: n, typ: t, expr: bmodel.castExpr(pkgScope(b.pkg.Types), b.imports, t)}), nil))))
+//@
+//@ func (*assignmentBuilder).castNode(b, lhsType, rhs) (c, ok)
+//@   requires wfB(b) && lhsType != nil && bmodel.wfNode(rhs)
+//@   use T10(), T6(lhsType)
+//@   effects log
+//@   ensures {C04,C01,C07,C02} ok == (castOf(b, lhsType, rhs) != nil) && (ok ==> c == castOf(b, lhsType, rhs)) && (!ok ==> c == nil)
+//@   ensures {C04,C01} ok ==> bmodel.wfNode(c) && assignable(bmodel.exprType(c), lhsType)
+//@   ensures {C04} ok && !b.opts.Typecast ==> c == rhs || !is(c, bmodel.TypecastEntry)
+//@   ensures {C04} ok && !b.opts.Stringer ==> c == rhs || !is(c, bmodel.StringerEntry)
+//@   ensures {C04} assignable(bmodel.exprType(rhs), lhsType) ==> ok && c == rhs
+//@   ensures {C07} ok ==> bmodel.returnsError(c) == bmodel.returnsError(rhs)
+//@
+//@ spec sliceChoice(b *assignmentBuilder, lhs bmodel.Node, rhs bmodel.Node) gmodel.Assignment =
+//@     cond(elemT(bmodel.exprType(lhs)) == nil || elemT(bmodel.exprType(rhs)) == nil, nil,
+//@     cond(assignable(elemT(bmodel.exprType(rhs)), elemT(bmodel.exprType(lhs))),
+//@          cond(isBasicT(elemT(bmodel.exprType(rhs))) && identicalT(elemT(bmodel.exprType(rhs)), elemT(bmodel.exprType(lhs))),
+//@               box(gmodel.SliceAssignment{LHS: bmodel.assignExpr(lhs), RHS: bmodel.assignExpr(rhs), Typ: "[]" + typeString(elemT(bmodel.exprType(lhs)))}),
+//@               box(gmodel.SliceLoopAssignment{LHS: bmodel.assignExpr(lhs), RHS: bmodel.assignExpr(rhs), Typ: "[]" + typeExpr(b.imports, elemT(bmodel.exprType(lhs)))})),
+//@     cond(b.opts.Typecast && convertible(elemT(bmodel.exprType(rhs)), elemT(bmodel.exprType(lhs))),
+//@          box(gmodel.SliceTypecastAssignment{LHS: bmodel.assignExpr(lhs), RHS: bmodel.assignExpr(rhs), Typ: "[]" + typeExpr(b.imports, elemT(bmodel.exprType(lhs))), Cast: typeExpr(b.imports, elemT(bmodel.exprType(lhs)))}),
+//@          nil)))
+//@
+//@ func (*assignmentBuilder).sliceToSlice(b, lhs, rhs) (a, err)
+//@   requires bmodel.wfNode(lhs) && bmodel.wfNode(rhs)
+//@   ensures {C16,C01} err == nil && a == sliceChoice(b, lhs, rhs)
+//@   ensures {C16,C01} is(a, gmodel.SliceAssignment) ==> identicalT(elemT(bmodel.exprType(rhs)), elemT(bmodel.exprType(lhs)))
+//@   ensures {C16} is(a, gmodel.SliceTypecastAssignment) ==> b.opts.Typecast && convertible(elemT(bmodel.exprType(rhs)), elemT(bmodel.exprType(lhs)))
